@@ -60,7 +60,7 @@ def main(tier_: str) -> int:
         if tier_ == 'thorough':
             # the single-state clauses over unbounded integers (SMT); slow, so only here - a time-out is 'unavailable', not a verdict
             from harness.core import run_apalache, apalache_must_not_refute
-            apa = run_apalache('LiveParamsApa', workdir=d, timeout=1500)
+            apa = run_apalache('LiveParamsApa', workdir=d, timeout=900)
             apalache_must_not_refute(apa, 'LiveParamsApa')
             out.coverage['apalache_unbounded'] = {k: v for k, v in apa.items() if k != 'tail'}
         states = re_.tagged('S')
